@@ -340,7 +340,7 @@ def selftest(repo: Repo):
         v("limit-in-output", "liquid/builtin/tags/for_tag.py", "        it, length = self.expression.evaluate(context)\n\n        if length:\n            character_count = 0", "        it, length = self.expression.evaluate(context)\n        if context.env.loop_iteration_limit:\n            length = min(length, context.env.loop_iteration_limit)\n        if length:\n            character_count = 0", "C08-READ"),
         v("swallow-limit-error", "liquid/builtin/tags/capture_tag.py", "        buf = context.get_buffer(buffer)\n        self.block.render(context, buf)\n", "        buf = context.get_buffer(buffer)\n        try:\n            self.block.render(context, buf)\n        except ResourceLimitError:\n            pass\n", "C08-CATCH"),
         v("swallow-via-liquiderror", "liquid/builtin/tags/ifchanged_tag.py", "        buf = context.get_buffer(buffer)\n        self.block.render(context, buf)\n", "        buf = context.get_buffer(buffer)\n        try:\n            self.block.render(context, buf)\n        except LiquidError:\n            return 0\n", "C08-CATCH"),
-        v("guard-with-else", CTX, "            raise LocalNamespaceLimitError(\"local namespace limit reached\", token=None)\n", "            raise LocalNamespaceLimitError(\"local namespace limit reached\", token=None)\n        else:\n            self.locals[key] = val\n", "C08-READ"),
+        lambda: Variant("guard-with-redundant-else-is-silent", text_edit(repo, CTX, "            raise LocalNamespaceLimitError(\"local namespace limit reached\", token=None)\n", "            raise LocalNamespaceLimitError(\"local namespace limit reached\", token=None)\n        else:\n            self.locals[key] = val\n", 1), "", silent=True),  # the else arm runs exactly when the guard does not raise: same behaviour in every mode
         v("buffer-limit-scaled", "liquid/template.py", "return LimitedStringIO(limit=self.env.output_stream_limit)", "return LimitedStringIO(limit=self.env.output_stream_limit // 2, initial_value=str(self.env.output_stream_limit))", "C08-READ"),
         v("get-buffer-falsy-limit", CTX, "        if self.env.output_stream_limit is None:\n            return StringIO()", "        if not self.env.output_stream_limit:\n            return StringIO()", "C08-READ"),
         v("loop-guard-truthiness", CTX, "            self.env.loop_iteration_limit is not None\n", "            self.env.loop_iteration_limit\n", "C08-READ"),
